@@ -101,6 +101,28 @@ CLAIMS = {
         "Not decided: ONNX Runtime execution, tolerance arithmetic. The narrowing defect found by R-C18b was repaired (fix commit 91c6437).",
         "DESIGN.md §3 C18",
     ),
+    "C15": (
+        "control-dependence (typestate 'finalised') check of every call receiving the IR model in to_onnx + constant / def-use checks on the save helper's branches",
+        "No call that receives the IR model before delivery may be control-dependent on the return or export mode (so 'ir', 'proto' and 'file' deliver the same finalised model); the web branch must save one "
+        "self-contained file and delete a stale sidecar; the standard branch must name one sidecar after the destination basename.",
+        "Not decided: equality of the protective clone with the original graph, bit-exact reload of spilled tensors, ORT outputs.",
+        "DESIGN.md §3 C15",
+    ),
+    "C05": (
+        "writer/reader agreement between extracted name patterns and reader predicates (finite-domain evaluation of the keep predicate, regex matching), who-may-remove check on graph inputs, guard dominance on the CFG",
+        "The f-string patterns the converter uses for positional graph inputs are extracted and instantiated; every reader that decides keeping / mapping positional inputs must accept them; graph inputs may be "
+        "removed only by the prune pass, which must be top-graph-only, order-preserving and consult the always-keep rule first; every name validation must raise before rename_values / before the converter runs.",
+        "Not decided: declared dtypes and shapes vs jax.eval_shape, output ordering of pytrees. The in_<i>_nchw defect was repaired (fix 64e066d).",
+        "DESIGN.md §3 C05",
+    ),
+    "C12": (
+        "constant folding of the permutation tables against the NCHW/NHWC reference, def-use from constant to perm= and to declared shapes, dominance of rank / index validation",
+        "The two layout permutations must be the reference values and inverse to each other; each bridge must use the right one for its Transpose and for the declared NCHW shape; symbolic-dim origins of an NCHW input "
+        "must be recorded on the external value with the permuted shape; _require_4d must reject every non-4D shape and dominate each boundary Transpose; index validation must reject non-integers, out-of-range and "
+        "duplicates, and the validated tuples must be what the bindings receive; non-selected values take the plain path.",
+        "Not decided: numerical equality with the plain export. The interaction with the optimizer's transpose folding is covered by C02 R-C02a, the kept unused NCHW input by C05 R-C05a.",
+        "DESIGN.md §3 C12",
+    ),
 }
 
 NOT_APPLICABLE = {
